@@ -2476,7 +2476,7 @@ class ScopeProp(Prop):
 
 EAGER_PROFILES = {
     "C02": [("plain", 30000), ("disp", 20000), ("cancel", 12000)],
-    "C03": [("plain", 20000)],
+    "C03": [("plain", 15000)],
     "C06": [("plain", 30000), ("disp", 10000), ("cancel", 12000)],
     "C07": [("plain", 30000), ("cancel", 20000)],
     "C08": [("faults", 30000)],
@@ -2510,7 +2510,7 @@ PROPS = {
                "the state answers, probe-log scope prefix and owning task group are compared before/after; scopes may carry completion "
                "callbacks that raise or use the library themselves; non-trivial = at least one fault fired or two blocks nested",
                sweeps=("sweep", "disp-sweep")),
-    "C03": _mk("C03", "exploration", {"quick": [("plain", 70000)], "thorough": [("plain", 1800000), ("plain-deep", 360000)]},
+    "C03": _mk("C03", "exploration", {"quick": [("plain", 55000)], "thorough": [("plain", 1800000), ("plain-deep", 360000)]},
                "2..4 actors (ctx.spawn / loop.create_task) each running its own nesting of scopes/updates with a pause between any "
                "two ops; every actor probes after every op against its own shadow stack; non-trivial = at least two actors"),
     "C06": _mk("C06", "fault_enumeration",
